@@ -132,12 +132,25 @@ def builder_job(which, n, prior=False, eq=True, zero_rows=False, pattern=None):
                                     type(T2) is np.ndarray and type(Co2) is np.ndarray))
             if Ac.tolist() != Cc:
                 bad.append('caller-matrix-modified')
+            if zero_rows or pattern is not None:
+                # same arguments, different heap history: free NaN/inf-filled blocks of the sizes the builder allocates
+                from harness.C18 import poison_replay
+                with core.concrete_mode():
+                    seen = poison_replay(lambda: np.asarray(getattr(b, which)(np.array(Cc), prior_counts=pc,
+                                                                            calculate_eq_probs=eq)[1]), n, repeats=25)
+                if len(seen) > 1:
+                    bad.append('result-depends-on-heap-contents')
+                    out['signature'] = 'builders:%s:result-depends-on-heap-contents' % which
+                    out['heap_outcomes'] = seen[:3]
             out['violated'] = bad
             return out
         if exc is not None:
             return PathOut([('no-exception', False)], {}, witness, exc=type(exc).__name__,
                            desc='raises %s: %s' % (type(exc).__name__, str(exc)[:100]))
         obs = oracle(C, pr, Cl, Tl, pil, isinstance(T, SArr) and isinstance(Cout, SArr))
+        from harness.C18 import independent_of_uninitialised
+        indep, ng = independent_of_uninitialised(ctx, [c for c in T.cells() if isinstance(c, core.SFloat)])
+        obs.append(('result-independent-of-uninitialised-memory', indep))
         obs.append(('caller-matrix-unmodified', conj([x == y for x, y in zip(A.cells(), A0.cells())])))
         return PathOut(obs, {'C': Cout, 'T': T, 'pi': pi}, witness, desc='%s n=%d' % (which, n))
     return path
